@@ -259,6 +259,15 @@ func main() {
 			if err := tf.Load(buf.Bytes()); err != nil {
 				panic(err)
 			}
+		} else if len(fl.Filter) > 0 && r.Chance(40) {
+			// history: a filter of another size was loaded and queried before, then
+			// the client reloads; nothing of the old filter may survive Reload
+			prev := *fl
+			prev.Filter = make([]byte, len(fl.Filter)*2+3)
+			f = bloom.LoadFilter(&prev)
+			lib.Recover(func() { f.Matches([]byte{1, 2, 3}); f.Add([]byte{4, 5}) })
+			f.Reload(fl)
+			st.Hist["history:reload-other-size"]++
 		} else {
 			f = bloom.LoadFilter(fl)
 		}
